@@ -14,6 +14,9 @@ theorem hexVal_hexDigit (d : Nat) (h : d < 16) : hexVal? (hexDigit d) = some d :
 
 theorem isUpperHex_hexDigit (d : Nat) (h : d < 16) : isUpperHex (hexDigit d) = true := hexDigit_upper ⟨d, h⟩
 
+theorem hexDigit_not_nl : ∀ d : Fin 16, (hexDigit d.val == 0x0A || hexDigit d.val == 0x0C) = false ∧
+    (hexDigit d.val == 0x0D) = false := by decide
+
 theorem hexDigit_ne_bs (d : Nat) (h : d < 16) : hexDigit d ≠ 0x5C := by
   have := isUpperHex_hexDigit d h
   intro e; rw [e] at this; revert this; decide
@@ -78,40 +81,40 @@ theorem hexDigits_length_le6 (n : Nat) (h : n ≤ maxUnicode) : (hexDigits n).le
 /-! ## the scanner on concatenations -/
 
 /-- state after reading `l` -/
-def steps : St → List Nat → St
+def steps (m : Bool) : St → List Nat → St
   | s, [] => s
-  | s, c :: t => steps (step s c).1 t
+  | s, c :: t => steps m (step m s c).1 t
 
 /-- output while reading `l` (without the flush) -/
-def outs : St → List Nat → List Nat
+def outs (m : Bool) : St → List Nat → List Nat
   | _, [] => []
-  | s, c :: t => (step s c).2 ++ outs (step s c).1 t
+  | s, c :: t => (step m s c).2 ++ outs m (step m s c).1 t
 
-theorem run_append (s : St) (a b : List Nat) : run s (a ++ b) = outs s a ++ run (steps s a) b := by
+theorem run_append (m : Bool) (s : St) (a b : List Nat) : run m s (a ++ b) = outs m s a ++ run m (steps m s a) b := by
   induction a generalizing s with
   | nil => simp [outs, steps]
   | cons c t ih => simp [run, outs, steps, ih, List.append_assoc]
 
-theorem steps_append (s : St) (a b : List Nat) : steps s (a ++ b) = steps (steps s a) b := by
+theorem steps_append (m : Bool) (s : St) (a b : List Nat) : steps m s (a ++ b) = steps m (steps m s a) b := by
   induction a generalizing s with
   | nil => simp [steps]
   | cons c t ih => simp [steps, ih]
 
-theorem outs_append (s : St) (a b : List Nat) : outs s (a ++ b) = outs s a ++ outs (steps s a) b := by
+theorem outs_append (m : Bool) (s : St) (a b : List Nat) : outs m s (a ++ b) = outs m s a ++ outs m (steps m s a) b := by
   induction a generalizing s with
   | nil => simp [outs, steps]
   | cons c t ih => simp [outs, steps, ih, List.append_assoc]
 
 /-- feeding the digits of `n` after a backslash: no output, and the scanner holds the value `n` -/
-theorem feed_digits (fuel : Nat) : ∀ n, n ≤ fuel → (hexDigitsF fuel n).length ≤ 6 →
-    steps .bs (hexDigitsF fuel n) = .hex n (hexDigitsF fuel n).length (0x5C :: hexDigitsF fuel n) ∧
-    outs .bs (hexDigitsF fuel n) = [] := by
+theorem feed_digits (m : Bool) (fuel : Nat) : ∀ n, n ≤ fuel → (hexDigitsF fuel n).length ≤ 6 →
+    steps m .bs (hexDigitsF fuel n) = .hex n (hexDigitsF fuel n).length (0x5C :: hexDigitsF fuel n) ∧
+    outs m .bs (hexDigitsF fuel n) = [] := by
   induction fuel with
   | zero =>
     intro n hn _
     have : n = 0 := by omega
     subst this
-    simp [hexDigitsF, steps, outs, step, hexDigit, hexVal?]
+    cases m <;> simp [hexDigitsF, steps, outs, step, hexDigit, hexVal?]
   | succ f ih =>
     intro n hn hlen
     simp only [hexDigitsF] at hlen ⊢
@@ -119,7 +122,9 @@ theorem feed_digits (fuel : Nat) : ∀ n, n ≤ fuel → (hexDigitsF fuel n).len
     · rename_i h
       have hv := hexVal_hexDigit n h
       have hb := hexDigit_ne_bs n h
-      simp [steps, outs, step, hv, hb]
+      have hn := hexDigit_not_nl ⟨n, h⟩
+      simp only at hn
+      simp [steps, outs, step, hv, hb, hn.1, hn.2]
     · rename_i h
       rw [if_neg h] at hlen
       have hle : n / 16 ≤ f := by
@@ -139,10 +144,10 @@ theorem feed_digits (fuel : Nat) : ∀ n, n ≤ fuel → (hexDigitsF fuel n).len
         simp [outs, step, hv, hk]
 
 /-- `\` hexdigits(c) SPACE read from state `bs` (the backslash already read): the character `c` comes out -/
-theorem run_bs_digits_space (c : Nat) (r : List Nat) (hmax : c ≤ maxUnicode) (hne : c ≠ 0x5C) :
-    run .bs (hexDigits c ++ 0x20 :: r) = c :: run .norm r := by
+theorem run_bs_digits_space (m : Bool) (c : Nat) (r : List Nat) (hmax : c ≤ maxUnicode) (hne : c ≠ 0x5C) :
+    run m .bs (hexDigits c ++ 0x20 :: r) = c :: run m .norm r := by
   have hlen := hexDigits_length_le6 c hmax
-  obtain ⟨hs, ho⟩ := feed_digits c c (Nat.le_refl _) hlen
+  obtain ⟨hs, ho⟩ := feed_digits m c c (Nat.le_refl _) hlen
   unfold hexDigits at *
   rw [run_append, ho, hs]
   have hv : hexVal? 0x20 = none := by decide
@@ -162,8 +167,8 @@ structure SyntaxRep (rep : Nat → Bool) : Prop where
 
 /-- in every state but `bs`, an unrepresentable character `c` and a backslash end whatever is pending in the
 same way; the character then goes to the output, the backslash opens an escape -/
-theorem step_unrep (rep : Nat → Bool) (hr : SyntaxRep rep) (s : St) (c : Nat) (hc : rep c = false)
-    (hs : s ≠ .bs) : ∃ pre, step s c = (.norm, pre ++ [c]) ∧ step s 0x5C = (.bs, pre) := by
+theorem step_unrep (m : Bool) (rep : Nat → Bool) (hr : SyntaxRep rep) (s : St) (c : Nat) (hc : rep c = false)
+    (hs : s ≠ .bs) : ∃ pre, step m s c = (.norm, pre ++ [c]) ∧ step m s 0x5C = (.bs, pre) := by
   have c_bs : c ≠ 0x5C := by intro e; rw [e, hr.bs] at hc; cases hc
   have c_sp : c ≠ 0x20 := by intro e; rw [e, hr.sp] at hc; cases hc
   have c_09 : c ≠ 0x09 := by intro e; rw [e, hr.ws.1] at hc; cases hc
@@ -186,6 +191,7 @@ theorem step_unrep (rep : Nat → Bool) (hr : SyntaxRep rep) (s : St) (c : Nat) 
     refine ⟨repl num (raw ++ [0x0D]), ?_, ?_⟩
     · simp [step, c_0A, stepNorm, c_bs]
     · simp [step, stepNorm]
+  | cont => exact ⟨[], by simp [step, stepNorm, c_0A, c_bs], by simp [step, stepNorm]⟩
 
 theorem escape_append (rep : Nat → Bool) (a b : List Nat) : escape rep (a ++ b) = escape rep a ++ escape rep b := by
   induction a with
@@ -195,8 +201,8 @@ theorem escape_append (rep : Nat → Bool) (a b : List Nat) : escape rep (a ++ b
     split <;> simp [ih, List.append_assoc]
 
 /-- the round trip from any scanner state -/
-theorem roundtrip_from (rep : Nat → Bool) (hr : SyntaxRep rep) (t : List Nat) :
-    ∀ s, (∀ c ∈ t, c ≤ maxUnicode) → okFrom rep s t = true → run s (escape rep t) = run s t := by
+theorem roundtrip_from (m : Bool) (rep : Nat → Bool) (hr : SyntaxRep rep) (t : List Nat) :
+    ∀ s, (∀ c ∈ t, c ≤ maxUnicode) → okFrom rep m s t = true → run m s (escape rep t) = run m s t := by
   induction t with
   | nil => intro s _ _; simp [escape]
   | cons c t ih =>
@@ -207,17 +213,17 @@ theorem roundtrip_from (rep : Nat → Bool) (hr : SyntaxRep rep) (t : List Nat) 
     cases hc : rep c with
     | true =>
       simp only [escape, hc, if_true, run]
-      rw [ih (step s c).1 hmax' htail]
+      rw [ih (step m s c).1 hmax' htail]
     | false =>
       have hs : s ≠ .bs := by
         intro e; subst e; simp [hc] at hhead
-      obtain ⟨pre, h1, h2⟩ := step_unrep rep hr s c hc hs
+      obtain ⟨pre, h1, h2⟩ := step_unrep m rep hr s c hc hs
       have c_bs : c ≠ 0x5C := by intro e; rw [e, hr.bs] at hc; cases hc
       have hcm : c ≤ maxUnicode := hmax c (List.mem_cons_self)
       rw [h1] at htail
       simp only [escape, hc, Bool.false_eq_true, if_false, escChar, List.cons_append, List.append_assoc,
         List.nil_append, run, h1, h2]
-      rw [run_bs_digits_space c (escape rep t) hcm c_bs, ih .norm hmax' htail]
+      rw [run_bs_digits_space m c (escape rep t) hcm c_bs, ih .norm hmax' htail]
 
 /-- what is written contains only representable characters -/
 theorem escape_representable (rep : Nat → Bool) (hr : SyntaxRep rep) (t : List Nat) :
@@ -254,8 +260,8 @@ end CssVerif.EncEscape
 namespace CssVerif.EncEscape
 
 /-- the guard is exact: where it fails, the escaped text reads differently -/
-theorem roundtrip_fails_from (rep : Nat → Bool) (hr : SyntaxRep rep) (t : List Nat) :
-    ∀ s, (∀ c ∈ t, c ≤ maxUnicode) → okFrom rep s t = false → run s (escape rep t) ≠ run s t := by
+theorem roundtrip_fails_from (m : Bool) (rep : Nat → Bool) (hr : SyntaxRep rep) (t : List Nat) :
+    ∀ s, (∀ c ∈ t, c ≤ maxUnicode) → okFrom rep m s t = false → run m s (escape rep t) ≠ run m s t := by
   induction t with
   | nil => intro s _ h; simp [okFrom] at h
   | cons c t ih =>
@@ -270,7 +276,7 @@ theorem roundtrip_fails_from (rep : Nat → Bool) (hr : SyntaxRep rep) (t : List
       · simp [hc] at hok
       · simp only [escape, hc, if_true, run]
         intro e
-        exact ih (step s c).1 hmax' hok (List.append_cancel_left e)
+        exact ih (step m s c).1 hmax' hok (List.append_cancel_left e)
     | false =>
       have c_bs : c ≠ 0x5C := by intro e; rw [e, hr.bs] at hc; cases hc
       by_cases hs : s = .bs
@@ -280,18 +286,24 @@ theorem roundtrip_fails_from (rep : Nat → Bool) (hr : SyntaxRep rep) (t : List
           cases h : hexVal? c with
           | none => rfl
           | some v => have := hr.hexAny c (by simp [h]); rw [this] at hc; cases hc
+        have c_0A : (c == 0x0A) = false := by
+          apply beq_eq_false_iff_ne.mpr; intro e; rw [e, hr.ws.2.1] at hc; cases hc
+        have c_0C : (c == 0x0C) = false := by
+          apply beq_eq_false_iff_ne.mpr; intro e; rw [e, hr.ws.2.2.1] at hc; cases hc
+        have c_0D : (c == 0x0D) = false := by
+          apply beq_eq_false_iff_ne.mpr; intro e; rw [e, hr.ws.2.2.2] at hc; cases hc
         simp only [escape, hc, Bool.false_eq_true, if_false, escChar, List.cons_append, run, step, c_bs, c_hex,
-          if_true, if_false]
+          c_0A, c_0C, c_0D, Bool.or_false, Bool.and_false, if_true, if_false]
         intro e
         simp only [List.cons.injEq, true_and] at e
         exact c_bs e.1.symm
-      · obtain ⟨pre, h1, h2⟩ := step_unrep rep hr s c hc hs
+      · obtain ⟨pre, h1, h2⟩ := step_unrep m rep hr s c hc hs
         rcases hok with hok | hok
         · simp [hc, hs] at hok
         · rw [h1] at hok
           simp only [escape, hc, Bool.false_eq_true, if_false, escChar, List.cons_append, List.append_assoc,
             List.nil_append, run, h1, h2]
-          rw [run_bs_digits_space c (escape rep t) hcm c_bs]
+          rw [run_bs_digits_space m c (escape rep t) hcm c_bs]
           intro e
           have e1 := List.append_cancel_left e
           simp only [List.cons.injEq, true_and] at e1
